@@ -327,6 +327,18 @@ func runScenario(sc scenario) func(t *testing.T, x *gate.Exec) {
 							env.Answer(p, sthAns{size: size})
 						})
 					}
+					if faults > 0 && sc.Continuous && sthAnswers > 0 {
+						// a lagging front end: an STH smaller than one served before
+						for _, d := range []int{1, 3} {
+							if size-d >= 0 {
+								add(fmt.Sprintf("%s <- stale size %d", p.Key, size-d), base+1, func() {
+									faults--
+									sthAnswers++
+									env.Answer(p, sthAns{size: size - d})
+								})
+							}
+						}
+					}
 					if faults > 0 {
 						add(p.Key+" <- error", base+1, func() {
 							faults--
